@@ -634,7 +634,7 @@ func (g *cbG) pick(xs []string, label string) string { return rapid.SampledFrom(
 
 func (g *cbG) kind() string {
 	if rapid.IntRange(0, 9).Draw(g.rt, "benign") == 0 {
-		return g.pick([]string{"reterr", "none"}, "benignkind")
+		return g.pick([]string{"reterr", "retbad", "none"}, "benignkind")
 	}
 	return g.pick(panicKinds, "kind")
 }
@@ -772,6 +772,11 @@ func (g *cbG) placed(depth int, act []string) []string {
 	return act
 }
 
+const otherModule = `
+twice := func(x) { return x * 3 }
+return {twice: twice, name: "other"}
+`
+
 func drawCallback(rt *rapid.T) (*caseData, []string) {
 	g := &cbG{rt: rt, classes: map[string]bool{}}
 	n := rapid.IntRange(1, 3).Draw(rt, "nactions")
@@ -799,10 +804,21 @@ func drawCallback(rt *rapid.T) (*caseData, []string) {
 		sb.WriteString("param (" + strings.Join(ps, ", ") + ")\n")
 	}
 	sb.WriteString("z := 0\n")
+	// half of the scripts import a source module registered under the probe's module name (a stale
+	// module cache would serve it to the probe)
+	var mods map[string]string
+	if rapid.Bool().Draw(rt, "import") {
+		mods = map[string]string{"pm": otherModule}
+		sb.WriteString("pm := import(\"pm\")\nz = pm.twice(0)\n")
+		g.classes["cb:imports-module"] = true
+	}
 	sb.WriteString(indent(body, 0))
 	sb.WriteString("return \"done\"\n")
-	c := &caseData{Kind: "cb", Tmpl: "callback", Src: sb.String(), Args: g.args, Globals: g.globals, NoOpt: rapid.Bool().Draw(rt, "noopt"), WantValue: "done"}
+	c := &caseData{Modules: mods, Kind: "cb", Tmpl: "callback", Src: sb.String(), Args: g.args, Globals: g.globals, NoOpt: rapid.Bool().Draw(rt, "noopt"), WantValue: "done"}
 	c.ArgsSrc = argsString(c.Args)
+	if c.Globals == "" {
+		c.Globals = drawGlobals(rt)
+	}
 	var cl []string
 	for k := range g.classes {
 		cl = append(cl, k)
